@@ -39,7 +39,7 @@ ASSUMPTIONS = [
     "to the options the re-parsed quantizer lost (behavioural test against a "
     "directly built quantizer without them)",
 ]
-BUDGET_S = {"quick": 70, "thorough": 800}
+BUDGET_S = {"quick": 70, "thorough": 840}
 _LITS = ["lit:int", "lit:float", "lit:bool", "lit:none", "lit:str", "lit:list",
          "lit:list1"]
 _REQ = (["stub", "order", "exotic", "quant", "str_lattice", "str_hyp",
@@ -560,13 +560,13 @@ def run(ctx):
 
   q = ctx.quick
   per = lambda a, b: (a if q else b) // ctx.n + 1   # noqa: E731
-  core.hyp_run(ctx, L.stub_case_strategy(HEADS), torc, per(4800, 400000),
+  core.hyp_run(ctx, L.stub_case_strategy(HEADS), torc, per(4800, 100000),
                name="c10_stub")
-  core.hyp_run(ctx, L.order_case_strategy(HEADS), torc, per(1600, 60000),
+  core.hyp_run(ctx, L.order_case_strategy(HEADS), torc, per(1600, 40000),
                name="c10_order")
-  core.hyp_run(ctx, L.exotic_case_strategy(HEADS), torc, per(2400, 100000),
+  core.hyp_run(ctx, L.exotic_case_strategy(HEADS), torc, per(2400, 60000),
                name="c10_exotic")
-  core.hyp_run(ctx, quant_case_strategy(), torc, per(480, 24000),
+  core.hyp_run(ctx, quant_case_strategy(), torc, per(480, 10000),
                name="c10_quant")
 
   # direction 2: random configurations
@@ -585,10 +585,11 @@ def run(ctx):
              sample_label="str_hyp")
     return [(sc, sig, d) for sc, sig, d, _ in fails]
 
-  core.hyp_run(ctx, scase(), sorc, per(240, 12000), name="c10_str")
+  core.hyp_run(ctx, scase(), sorc, per(240, 4000), name="c10_str")
 
   if not ctx.quick:
-    atheris_phase(ctx, int(max(30, min(240, ctx.time_left() * 0.5))))
+    left = ctx.time_left()
+    atheris_phase(ctx, 120 if left > 150 else int(max(30, left * 0.5)))
 
 
 def atheris_phase(ctx, seconds):
